@@ -439,3 +439,203 @@ Check C01_partial_strict2 : forall dbg hp hpo hd shp shs input base sbase,
   | BOutOfFuel => False
   end.
 Print Assumptions C01_partial_strict2.
+
+(* ===== relative references (task c01rel) ===== *)
+(* Scheme-less references against a `related` base that is neither special nor opaque: the Standard's
+   no scheme -> relative -> relative slash / path states against parse_relative of parser.rs.
+   New files Proofs/C01_EqRel.v, C01_EqRelPath.v, C01_EqRelArms.v; nothing above is changed. *)
+From RU Require Import Proofs.C02_Parts Proofs.C02_Path Proofs.C01_EqRel Proofs.C01_EqRelPath Proofs.C01_EqRelArms Proofs.C01_EqRelBase.
+
+(* ---------- the Standard's side alone (any host parser) ---------- *)
+(* "//T": the relative slash state hands over to the authority state with only the scheme of the base *)
+Theorem C01_rel_states_authority : forall shp input sb T,
+  has_opaque_path sb = false -> is_special_scheme (su_scheme sb) = false ->
+  spec_clean input = 47 :: 47 :: T ->
+  match sauth shp (su_scheme sb) T with
+  | Some su => spec_basic_url_parse shp input (Some sb) = BDone su
+  | None => exists uf, spec_basic_url_parse shp input (Some sb) = BFailure uf
+  end.
+Proof. exact spec_rel_authority. Qed.
+Print Assumptions C01_rel_states_authority.
+
+(* "/t" (t not starting with '/'): scheme, credentials, host and port of the base, then the path state on
+   an empty path *)
+Theorem C01_rel_states_abs : forall shp input sb t,
+  has_opaque_path sb = false -> is_special_scheme (su_scheme sb) = false ->
+  spec_clean input = 47 :: t -> starts_with_cp 47 t = false ->
+  spec_basic_url_parse shp input (Some sb) = BDone (rel_path_result sb [] t).
+Proof. exact spec_rel_abs. Qed.
+Print Assumptions C01_rel_states_abs.
+
+(* "c t" without scheme, c none of '/', '?', '#': the path of the base shortened by one segment, then the
+   path state on the whole reference *)
+Theorem C01_rel_states_path : forall shp input sb c t,
+  has_opaque_path sb = false -> is_special_scheme (su_scheme sb) = false ->
+  spec_clean input = c :: t -> spec_scheme (c :: t) = None ->
+  (c =? 47) = false -> (c =? 63) = false -> (c =? 35) = false ->
+  spec_basic_url_parse shp input (Some sb) = BDone (rel_path_result sb (removelast (path_segments sb)) (c :: t)).
+Proof. exact spec_rel_path. Qed.
+Print Assumptions C01_rel_states_path.
+
+(* containment on the Standard's side: in the two path classes the result keeps scheme, username,
+   password, host and port of the base (the model-side law is C08_contain) *)
+Theorem C01_rel_spec_containment : forall sb P0 t, spec_same_front sb (rel_path_result sb P0 t).
+Proof. exact rel_path_result_front. Qed.
+Check C01_rel_spec_containment : forall sb P0 t,
+  let su := rel_path_result sb P0 t in
+  su_scheme su = su_scheme sb /\ su_username su = su_username sb /\ su_password su = su_password sb
+  /\ su_host su = su_host sb /\ su_port su = su_port sb.
+Print Assumptions C01_rel_spec_containment.
+
+(* ---------- (c) scheme-relative "//[userinfo@]host[:port][/path][?q][#f]" ---------- *)
+(* base: any `related` pair with a non-special, non-opaque Standard record whose scheme is lower-case
+   (scheme_canon: true of every parse result).  Recogniser in_class_rel_authority: the cleaned reference
+   starts with "//" and the rest is in the authority class of C01_eq_authority (same three exclusions).
+   Host functions abstract, host_agree on the one string rel_host_text input. *)
+Theorem C01_eq_rel_authority : forall dbg hp hpo hd ovr shp shs input b sb,
+  usv_list input -> related dbg shs b sb -> scheme_canon (su_scheme sb) = true ->
+  in_class_rel_authority sb input = true ->
+  host_agree hpo hd shp shs (rel_host_text input) ->
+  agree_rel_strict dbg shs (parse_url dbg hp hpo hd ovr (Some b) input) (spec_basic_url_parse shp input (Some sb)).
+Proof. exact class_rel_authority. Qed.
+Check C01_eq_rel_authority : forall dbg hp hpo hd ovr shp shs input b sb,
+  usv_list input -> related dbg shs b sb -> scheme_canon (su_scheme sb) = true ->
+  in_class_rel_authority sb input = true ->
+  host_agree hpo hd shp shs (rel_host_text input) ->
+  match spec_basic_url_parse shp input (Some sb) with
+  | BDone su => (parse_url dbg hp hpo hd ovr (Some b) input = PErr Overflow /\ U32_MAX_P < nlen (get_href shs su))
+                \/ exists u, parse_url dbg hp hpo hd ovr (Some b) input = POk u /\ related dbg shs u su
+  | BFailure _ => exists e, parse_url dbg hp hpo hd ovr (Some b) input = PErr e
+  | BOutOfFuel => False
+  end.
+Print Assumptions C01_eq_rel_authority.
+
+(* ---------- (a) path-absolute "/x/y?q#f" ---------- *)
+(* the Standard always succeeds here; the model answers Overflow only beyond u32::MAX, else succeeds with a
+   `related` record; the Standard's result is again a good base (spec_base_ok).  Only exclusion: a ".."
+   that would pop a drive-letter-shaped segment (F-C01-9; Known_C01 class 2), computed by spath_ok on
+   the Standard's own path state. *)
+Theorem C01_eq_rel_abs : forall dbg hp hpo hd ovr shp shs input b sb,
+  usv_list input -> related dbg shs b sb -> scheme_canon (su_scheme sb) = true ->
+  in_class_rel_abs sb input = true ->
+  exists su, spec_basic_url_parse shp input (Some sb) = BDone su /\ spec_base_ok su = true
+    /\ agree_rel_strict dbg shs (parse_url dbg hp hpo hd ovr (Some b) input) (BDone su).
+Proof. exact class_rel_abs. Qed.
+Check C01_eq_rel_abs : forall dbg hp hpo hd ovr shp shs input b sb,
+  usv_list input -> related dbg shs b sb -> scheme_canon (su_scheme sb) = true ->
+  in_class_rel_abs sb input = true ->
+  exists su, spec_basic_url_parse shp input (Some sb) = BDone su /\ spec_base_ok su = true
+    /\ ((parse_url dbg hp hpo hd ovr (Some b) input = PErr Overflow /\ U32_MAX_P < nlen (get_href shs su))
+        \/ exists u, parse_url dbg hp hpo hd ovr (Some b) input = POk u /\ related dbg shs u su).
+Print Assumptions C01_eq_rel_abs.
+
+(* ---------- (b) path-relative "x/../y?q#f" ---------- *)
+(* pop_path of the model on the serialized base path = "shorten" of the Standard on its segment list
+   (needs: no segment of the Standard's base record contains '/', part of spec_base_ok), then the path
+   state continues on the merged path; the "/." marker of an authority-less base is inserted / removed by
+   with_query_and_fragment exactly as the Standard's serializer prescribes.  Same single exclusion, now
+   also against the segments kept of the base. *)
+Theorem C01_eq_rel_path : forall dbg hp hpo hd ovr shp shs input b sb,
+  usv_list input -> related dbg shs b sb -> spec_base_ok sb = true ->
+  in_class_rel_path sb input = true ->
+  exists su, spec_basic_url_parse shp input (Some sb) = BDone su /\ spec_base_ok su = true
+    /\ agree_rel_strict dbg shs (parse_url dbg hp hpo hd ovr (Some b) input) (BDone su).
+Proof. exact class_rel_path. Qed.
+Check C01_eq_rel_path : forall dbg hp hpo hd ovr shp shs input b sb,
+  usv_list input -> related dbg shs b sb -> spec_base_ok sb = true ->
+  in_class_rel_path sb input = true ->
+  exists su, spec_basic_url_parse shp input (Some sb) = BDone su /\ spec_base_ok su = true
+    /\ ((parse_url dbg hp hpo hd ovr (Some b) input = PErr Overflow /\ U32_MAX_P < nlen (get_href shs su))
+        \/ exists u, parse_url dbg hp hpo hd ovr (Some b) input = POk u /\ related dbg shs u su).
+Print Assumptions C01_eq_rel_path.
+
+(* ---------- the three classes together ---------- *)
+Theorem C01_eq_relative : forall dbg hp hpo hd ovr shp shs input b sb,
+  usv_list input -> related dbg shs b sb -> spec_base_ok sb = true -> in_class_relative sb input = true ->
+  (in_class_rel_authority sb input = true -> host_agree hpo hd shp shs (rel_host_text input)) ->
+  agree_rel_strict dbg shs (parse_url dbg hp hpo hd ovr (Some b) input) (spec_basic_url_parse shp input (Some sb)).
+Proof. exact class_relative. Qed.
+Print Assumptions C01_eq_relative.
+
+(* non-vacuity: the authority-less base n:/a/b/c and the base n://u@h/a/b with authority are `related`
+   pairs meeting spec_base_ok; "/x/../y?q#f", "x/../../y" and " //H:080/p" are in the three classes; with the
+   real host functions both sides give the expected hrefs.  The exclusion is necessary: against
+   n:/C:/x the reference "../y" is not in the class, and the sides do differ (n:/C:/y vs n:/y). *)
+Example C01_eq_relative_nonvacuous :
+  let shs := spec_host_serializer in
+  let shp := spec_host_parser (fun x => Some x) in
+  let P1 := [[97]; [98]; [99]] in
+  let b1 := noauth_url [110] (flat_map (fun s => 47 :: s) P1) None None in
+  let sb1 := spec_noauth_url [110] P1 None None in
+  let P2 := [[97]; [98]] in
+  let b2 := auth_url [110] [117] [] [104] HI_Domain None (flat_map (fun s => 47 :: s) P2) None None in
+  let sb2 := spec_auth_url [110] [117] [] (SOpaque [104]) None P2 None None in
+  let P3 := [[67; 58]; [120]] in
+  let b3 := noauth_url [110] (flat_map (fun s => 47 :: s) P3) None None in
+  let sb3 := spec_noauth_url [110] P3 None None in
+  let iabs := [47; 120; 47; 46; 46; 47; 121; 63; 113; 35; 102] in
+  let ipath := [120; 47; 46; 46; 47; 46; 46; 47; 121] in
+  let iauth := [32; 47; 47; 72; 58; 48; 56; 48; 47; 112] in
+  let idots := [46; 46; 47; 121] in
+  let join b i := parse_url true (host_parse (fun x => Some x)) host_parse_opaque host_display None (Some b) i in
+  related true shs b1 sb1 /\ related true shs b2 sb2 /\ related true shs b3 sb3
+  /\ spec_base_ok sb1 = true /\ spec_base_ok sb2 = true /\ spec_base_ok sb3 = true
+  /\ in_class_rel_abs sb1 iabs = true /\ in_class_rel_abs sb2 iabs = true
+  /\ in_class_rel_path sb1 ipath = true /\ in_class_rel_path sb2 ipath = true
+  /\ in_class_rel_authority sb1 iauth = true
+  /\ host_agree host_parse_opaque host_display shp shs (rel_host_text iauth)
+  /\ match join b1 iabs, spec_basic_url_parse shp iabs (Some sb1) with
+     | POk u, BDone su => q_href u = [110; 58; 47; 121; 63; 113; 35; 102] /\ api_of_model true u = Some (spec_api_list shs su)
+     | _, _ => False end
+  /\ match join b2 iabs, spec_basic_url_parse shp iabs (Some sb2) with
+     | POk u, BDone su => q_href u = [110; 58; 47; 47; 117; 64; 104; 47; 121; 63; 113; 35; 102] /\ api_of_model true u = Some (spec_api_list shs su)
+     | _, _ => False end
+  /\ match join b1 ipath, spec_basic_url_parse shp ipath (Some sb1) with
+     | POk u, BDone su => q_href u = [110; 58; 47; 97; 47; 121] /\ api_of_model true u = Some (spec_api_list shs su)
+     | _, _ => False end
+  /\ match join b2 ipath, spec_basic_url_parse shp ipath (Some sb2) with
+     | POk u, BDone su => q_href u = [110; 58; 47; 47; 117; 64; 104; 47; 121] /\ api_of_model true u = Some (spec_api_list shs su)
+     | _, _ => False end
+  /\ match join b1 iauth, spec_basic_url_parse shp iauth (Some sb1) with
+     | POk u, BDone su => q_href u = [110; 58; 47; 47; 72; 58; 56; 48; 47; 112] /\ api_of_model true u = Some (spec_api_list shs su)
+     | _, _ => False end
+  /\ in_class_rel_path sb3 idots = false
+  /\ match join b3 idots, spec_basic_url_parse shp idots (Some sb3) with
+     | POk u, BDone su => q_href u = [110; 58; 47; 67; 58; 47; 121] /\ get_href shs su = [110; 58; 47; 121]
+     | _, _ => False end.
+Proof.
+  cbv zeta.
+  assert (forall P, P <> [] -> forallb no_slash P = true ->
+            wf_b (noauth_url [110] (flat_map (fun s => 47 :: s) P) None None) = true ->
+            related true spec_host_serializer (noauth_url [110] (flat_map (fun s => 47 :: s) P) None None)
+                    (spec_noauth_url [110] P None None)) as RN
+    by (intros P H1 H2 H3; exact (related_noauth true spec_host_serializer [110] P None None H1 H2 H3)).
+  split; [apply RN; [discriminate | vm_compute; reflexivity | vm_compute; reflexivity]|].
+  split.
+  { apply (related_auth true spec_host_serializer [110] [117] [] [104] HI_Domain (SOpaque [104]) None [[97]; [98]] None None).
+    constructor; try (vm_compute; reflexivity); try (intros H; discriminate H); try exact I.
+    intros p H. discriminate H. }
+  split; [apply RN; [discriminate | vm_compute; reflexivity | vm_compute; reflexivity]|].
+  do 8 (split; [vm_compute; reflexivity|]).
+  split; [unfold host_agree; vm_compute; repeat split; try reflexivity; intros H; discriminate H|].
+  vm_compute. repeat split.
+Qed.
+
+(* ---------- the side condition spec_base_ok is met by the records the proved classes return ---------- *)
+(* so the classes chain: a base parsed by C01_eq_pathonly / C01_eq_authority, or resolved by any of the
+   three relative classes, or edited by the '#' / '?' / empty reference classes, is a base of the
+   relative classes again (`related` comes from the class theorems themselves) *)
+Theorem C01_rel_base_ok : forall shp,
+  (forall input su, usv_list input -> in_class_pathonly input = true ->
+     spec_basic_url_parse shp input None = BDone su -> spec_base_ok su = true)
+  /\ (forall input su, in_class_authority input = true ->
+        spec_basic_url_parse shp input None = BDone su -> spec_base_ok su = true)
+  /\ (forall input sb su, scheme_canon (su_scheme sb) = true -> in_class_rel_authority sb input = true ->
+        spec_basic_url_parse shp input (Some sb) = BDone su -> spec_base_ok su = true)
+  /\ (forall u f, spec_base_ok (Whatwg.set_fragment u f) = spec_base_ok u)
+  /\ (forall u q, spec_base_ok (Whatwg.set_query u q) = spec_base_ok u).
+Proof.
+  intros shp. split; [exact (pathonly_result_ok shp)|]. split; [exact (authority_result_ok shp)|].
+  split; [exact (rel_authority_result_ok shp)|]. split; [exact base_ok_set_fragment | exact base_ok_set_query].
+Qed.
+Print Assumptions C01_rel_base_ok.
